@@ -377,7 +377,8 @@ SPEC = {
              "Simple(max 0-3, 30 ms)} and consistency (incl. SERIAL / LOCAL_SERIAL) taken from the statement, from an own "
              "execution profile or from the session's default profile; the mock answers the k-th frame of a page with the "
              "k-th scripted outcome (ERROR frames of the C06 error domain, unparsable ERROR body, UNPREPARED to an EXECUTE, cut "
-             "connection, delay, success); 1 request in 14 carries a 100 ms client-side request timeout against a 300 ms answer; per logical "
+             "connection, delay, success); 1 request in 14 carries a 100 ms client-side request timeout against a 300 ms answer (a timed-out "
+             "request is judged by check_timeout; a frame arriving more than the margin after its return is a viol); per logical "
              "request and page the frames the mock received (node, consistency, arrival / answer instants, answer) and the "
              "caller's result and coordinator must be accepted by the extracted checker e2e_check on a certificate the "
              "driver proposes (plan + outcome stream per fiber); "
